@@ -50,6 +50,8 @@ def main():
     ids = [a for a in args if not a.startswith("--")] or sorted(d for d in os.listdir(ROOT + "/" + sub) if os.path.isdir(ROOT + "/" + sub + "/" + d))
     claimed = [c["property_id"] for c in json.load(open(ROOT + "/MANIFEST.json"))["checks"]]
     resf = ROOT + "/" + sub + ("/RESULTS_scratch.json" if sub == "seeded" else "/RESULTS.json")
+    for a in args:
+        if a.startswith("--out="): resf = a.split("=")[1]
     results = json.load(open(resf)) if os.path.exists(resf) else {}
     lock = threading.Lock()
     free = list(range(jobs))
